@@ -16,6 +16,7 @@ class Built:
         self.decorated = {}  # method key -> what the instance_method decorator returned
         self.item_schemas = {}  # id(item node) -> the Schema built for it
         self.keep = []  # (keeps the nodes alive whose id() is a key above)
+        self.late_fills = []  # item schemas to be filled after their list field has been attached
 
 
 def resolve(obj, mapping):
@@ -175,7 +176,11 @@ def _make_field(cc, node, built, path):
                     ikw["env"] = item["env"]
                 sub = built.item_schemas[share] = cc.Schema(dynamic=item.get("dynamic", False), **ikw)
                 built.keep.append(item)
-                _fill(cc, sub, item, built, path + "[]")
+                if item.get("late_fill"):
+                    # declared top-down: the list first, the fields of its items once the list field is part of the schema
+                    built.late_fills.append((sub, item, path + "[]"))
+                else:
+                    _fill(cc, sub, item, built, path + "[]")
             return cc.ListField(sub, **kw)
         return cc.ListField(_make_type(cc, item, built, path + "[]"), **kw)
     if fam == "dict":
@@ -375,6 +380,9 @@ def _fill(cc, schema, node, built, prefix, via=""):
             built.decorated[key] = cc.instance_method(here(), key)(fn)
         else:
             put(key, make_field(cc, ch, built, path))
+            while built.late_fills:
+                sub, item, ipath = built.late_fills.pop()
+                _fill(cc, sub, item, built, ipath)
     if node.get("shared_decorator") and len(node.get("validators", ())) > 1:
         # one decorator object applied to several functions
         deco = cc.validator(here())
